@@ -3,16 +3,23 @@ import ProcSim.Props.C17
 /-!
 # Termination of `simulate` and the meaning of a stall (C08)
 
-1. Which `Fault`s the steps of a cycle can raise (`runCycle_error_cases`), and where a fault / a diagram of
-   `simLoop` comes from (`simLoop_fault`, `simLoop_length`).
-2. A position function on unit names that strictly increases along every connection (`upos`).
-3. Where the instructions of the new record come from (`Origin`, `fillCycle_origin`).
-4. The rank argument: `rank`, `phi`, monotone (`rank_mono`), strictly increasing in a productive cycle
-   (`phi_lt_of_productive`), bounded (`phi_le`), hence `simLoop_no_fuel`.
-5. Frozen records: a record that satisfies the semantic form of `Spec.frozen` is a fixed point of the cycle and
-   conversely (`Frozen`, `frozen_fixed`, `fixed_frozen`).
+1. Which `Fault`s the steps of a cycle can raise (`runCycle_error_cases`, `runCycle_no_noUnit_badIndex`), and where a
+   fault / a diagram of `simLoop` comes from (`simLoop_fault`, `simLoop_length`).
+2. A position function on unit names that strictly increases along every connection (`upos`, `upos_lt_of_pred`).
+3. Where the instructions of the record produced by the fill phase come from (`Origin`, `fillCycle_origin`).
+4. The rank argument: `rank`, `phi`; per-instruction case analysis of a cycle `CycleCtx` (`rank_new`, `rank_mono`,
+   `perm_of_rank_eq`, `phi_lt`), the bound `phi_le`.
+5. `TermInv`, `cycleCtx_of_labelAll`, `phi_lt_of_productive`, `simLoop_no_fuel`, `simulate_no_fuel`,
+   `simulate_fault_cases`.
+6. Tracing the fill phase (`NonStay`, `Bad`, `fillDests_trace`, `issueLoop_trace`): either nothing happened or an
+   entry is there that did not simply stay.
+7. Frozen records are exactly the fixed points of the cycle (`FrozenRec`, `fixed_frozen`, `frozen_fixed`).
+8. Reachable states and the prefixes of a diagram (`Reach`, `Reach.prefix`, `Appears`, `prefix_entered`, `prefix_util`).
+9. Reading `Spec.frozen` on a diagram (`firstCycle_le_iff`, `issuedBy_eq`, `frozen_core_iff`, `frozen_prefix_iff`,
+   `DExact_of_C02`, `FrozenDClause`, `stall_frozen`, `not_frozen_before`).
 
-All names live in `ProcSim.Term`.
+All names live in `ProcSim.Term`. Imports `Props/C17.lean` for `Util_beq_iff_multiset` (the stall test is per-unit
+multiset equality).
 -/
 namespace ProcSim
 namespace Term
